@@ -99,21 +99,20 @@ def run(ctx):
             if pg:
                 shares_map, pkp = pg[0][2][0], pg[0][2][1]
                 det = fmt(pkp)[:400]
-                if shares_map[0] == "mut" and pkp[0] == "agg":
+                if pkp[0] == "agg":
                     fields = dict(pkp[4])
-                    vs = fields.get("verifying_shares")
-                    ins_s = [o for o in shares_map[2] if o[1] == "insert"]
-                    ins_v = [o for o in vs[2] if o[1] == "insert"] if vs and vs[0] == "mut" else []
-                    if len(ins_s) == 1 and len(ins_v) == 1:
-                        share = ins_s[0][2][1]
-                        key_s, key_v, val_v = ins_s[0][2][0], ins_v[0][2][0], unwrap_newtypes(ins_v[0][2][1])
-                        src = share[1] if share[0] == "some" else None
-                        from_gss = src is not None and mentions(src, lambda s: is_call(s, name="generate_secret_shares")
-                                                                and s[2][0] == ("arg", 1) and s[2][1] == ("arg", 2)
-                                                                and s[2][2] == ("arg", 3))
-                        good = (from_gss and is_field(key_s, "SecretShare", "identifier") and key_s[1] == share
-                                and key_v == key_s
-                                and gen_times(val_v, lambda s: mentions(s, lambda u: is_field(u, "SecretShare", "signing_share") and u[1] == share)))
+                    cs = map_components(P, split, v, shares_map)
+                    cv_ = map_components(P, split, v, fields.get("verifying_shares", ("x",)))
+                    from_gss = lambda src: mentions(src, lambda s: is_call(s, name="generate_secret_shares") and s[2][0] == ("arg", 1)
+                                                    and s[2][1] == ("arg", 2) and s[2][2] == ("arg", 3)) and \
+                        not mentions(src, lambda s: is_call(s) and s[1].rsplit("::", 1)[-1] in TRUNCATING - LOOKUPS)
+                    if len(cs) == 1 and len(cv_) == 1 and cs[0][0] == "each" and cv_[0][0] == "each" and from_gss(cs[0][1]) and cs[0][1] == cv_[0][1]:
+                        key_s, share = cs[0][2], cs[0][3]
+                        key_v, val_v = cv_[0][2], unwrap_newtypes(cv_[0][3])
+                        idf = lambda t: is_field(strip_newtype_fields(t), "SecretShare", "identifier") and strip_newtype_fields(t)[1] == ITEM or \
+                            (is_field(t, "SecretShare", "identifier") and t[1] == ITEM)
+                        good = (idf(key_s) and share == ITEM and idf(key_v)
+                                and gen_times(val_v, lambda s: mentions(s, lambda u: is_field(u, "SecretShare", "signing_share") and u[1] == ITEM)))
                         ms = fields.get("min_signers")
                         good = good and ms is not None and ms[0] == "agg" and ms[3] == "Some" and ms[4][0][1] == ("arg", 3)
                         vk = unwrap_newtypes(fields.get("verifying_key"))
